@@ -171,7 +171,7 @@ func main() {
 		[]*sdf.Triangle3{T(p(0, 0, 0), p(1, 0, 0), p(0, 1, 0)), T(p(1+1e-12, 1e-50, 0), p(0, 1, 0), p(0, 0, 1)), T(p(1e6, 0, 0), p(1e6+1e-9, 1, 0), p(1e6+1e-9, 0, 0))})
 	chunk3 := map[int][]int{}
 	for pi, pat := range chunkPatterns {
-		for _, n := range []int{135, 390, 700} {
+		for _, n := range []int{135, 390, 700, 1025, 2100, 4200} { // the long ones (round 9): beyond 1024, 2048 and 4096 items in one file
 			var ts []*sdf.Triangle3
 			for k := 0; k < n; k++ {
 				f := float64(k)
@@ -282,7 +282,7 @@ func main() {
 		[]*sdf.Line2{L(0, 0, 1e15, 1e15), L(1e15-0.5, 1e15-0.25, 1e15, 1e15-1)})
 	chunk2 := map[int][]int{}
 	for pi, pat := range chunkPatterns {
-		for _, n := range []int{135, 390, 700} {
+		for _, n := range []int{135, 390, 700, 1025, 2100, 4200} { // the long ones (round 9): beyond 1024, 2048 and 4096 items in one file
 			var ls []*sdf.Line2
 			for k := 0; k < n; k++ {
 				f := float64(k)
